@@ -446,24 +446,57 @@ fn cmd_census(nseeds: u64, ext: bool, buf: bool) {
 /// S7: one traced run (with Rc identities) for the model, then the same call again, measured: live heap bytes before
 /// constructing the generator and after dropping it and its output (single-threaded; warmed up by the first run)
 fn leak_case(line: &str) -> Vec<String> {
-    let mut out = trace_case(&format!("{} alias=1", line));
-    out.pop(); // END
     let m = kv(line);
     {
-        // warm-up of everything lazily initialised (module table, thread locals)
+        // warm-up of everything lazily initialised, with OTHER inputs than the measured call (a cache keyed by the values
+        // seen would otherwise look warm): one rich generation touching every opcode family, then this case's
+        // configuration on different entropy inputs
+        let mut rich = Generator::new(Version::V5)
+            .with_opcode_range(3000, 3001)
+            .with_ext_opcodes(true)
+            .with_buffer_opcodes(true)
+            .with_seed(12345);
+        let _ = rich.generate();
         let mut g = mk_generator(&m);
-        let _ = run_src(&mut g, &m["src"]);
+        let _ = run_src(&mut g, "seed:987654321");
+        let _ = run_src(&mut g, "bytes:0102030405060708090a0b0c0d0e0f");
     }
-    let before = live();
-    {
-        let mut g = mk_generator(&m);
-        let r = run_src(&mut g, &m["src"]);
-        drop(r);
-        g.reset();
-        drop(g);
-    }
-    let after = live();
+    // the measured call comes BEFORE the traced run of the same input
+    let measure = |src: &str| -> isize {
+        let before = live();
+        {
+            let mut g = mk_generator(&m);
+            let r = run_src(&mut g, src);
+            drop(r);
+            g.reset();
+            drop(g);
+        }
+        live() - before
+    };
+    let d1 = measure(&m["src"]);
+    // bytes that stay allocated once only (a lazily initialised table on a rarely taken path) are not a leak: a leak
+    // either repeats for the same input (reference cycles) or repeats for fresh inputs (a cache keyed by the values seen)
+    let (leaked, note) = if d1 == 0 {
+        (0, "none")
+    } else {
+        let d2 = measure(&m["src"]);
+        if d2 != 0 {
+            (d2, "repeats-for-the-same-input")
+        } else {
+            let y1 = measure("seed:192837465");
+            let y2 = measure("seed:564738291");
+            if y1 != 0 && y2 != 0 {
+                (d1, "repeats-for-fresh-inputs")
+            } else {
+                (0, "one-time-initialisation")
+            }
+        }
+    };
+    let (before, after) = (0isize, leaked);
+    let mut out = trace_case(&format!("{} alias=1", line));
+    out.pop(); // END
     out.push(format!("LIVE {} {}", before, after));
+    out.push(format!("LEAKNOTE {} first={}", note, d1));
     out.push("END".into());
     out
 }
